@@ -296,9 +296,10 @@ theorem rechunk_on_load_old_counterexample :
       = some [(0, 10, [0]), (10, 5000, [1])] := by
   decide +kernel
 
-example : (rechunkOnLoad (-1) 1 ({ exDir.1 with chunks := [⟨0, 2, 0, 5000, some "r", none, some 1, some 4, some 4000, some 4001,
-      some "src-h-000000"⟩] }, [("src-h-000000", [⟨1, 4, 0⟩, ⟨4000, 4001, 1⟩])])).toOption.map
-      (fun out => out.map fun c => (c.start, c.stop, ids c.rows)) = some [(0, 3500, [0]), (3500, 5000, [1])] := by
+/-- one stored chunk with two gaps > 1000 ns, source size one row: split 500 ns before row 1 -/
+example : (rechunkOnLoad (-1) 1 ({ exDir.1 with chunks := [⟨0, 3, 0, 5000, some "r", none, some 1, some 4, some 4000, some 4001,
+      some "src-h-000000"⟩] }, [("src-h-000000", [⟨1, 4, 0⟩, ⟨2000, 2001, 1⟩, ⟨4000, 4001, 2⟩])])).toOption.map
+      (fun out => out.map fun c => (c.start, c.stop, ids c.rows)) = some [(0, 1500, [0]), (1500, 5000, [1, 2])] := by
   decide +kernel
 
 /-! ## 5. per-chunk processing followed by merging -/
